@@ -39,9 +39,37 @@ struct Batch {
   }
 };
 static const char* alph_of(int a) { return a ? URLSAFE_ALPHABET : nullptr; }
+// the pointer + size overloads, on memory that is NOT followed by a NUL: an exact-size heap block (ASan sees any read
+// past it) or a slice of a larger block whose following bytes are 0xFF
+static string enc_ptr(const string& in, int a, int how) {
+  if (how == 0) {
+    char* heap = (char*)malloc(in.size() ? in.size() : 1);
+    memcpy(heap, in.data(), in.size());
+    string r = base64_encode(heap, in.size(), alph_of(a));
+    free(heap);
+    return r;
+  }
+  string big = in + string(8, (char)0xFF);
+  return base64_encode(big.data(), in.size(), alph_of(a));
+}
+static string dec_ptr(const string& t, int a, int how) {
+  if (how == 0) {
+    char* heap = (char*)malloc(t.size() ? t.size() : 1);
+    memcpy(heap, t.data(), t.size());
+    struct G {
+      char* p;
+      ~G() { free(p); }
+    } g{heap};
+    return base64_decode(heap, t.size(), alph_of(a));
+  }
+  string big = t + "AAAAAAAA";
+  return base64_decode(big.data(), t.size(), alph_of(a));
+}
 static string dec_out(const string& t, int a) {
   try {
-    string d = a == 2 ? base64_decode(t.data(), t.size(), DEFAULT_ALPHABET) : base64_decode(t, alph_of(a));
+    static unsigned rot = 0;
+    unsigned how = rot++ % 3;
+    string d = a == 2 ? base64_decode(t.data(), t.size(), DEFAULT_ALPHABET) : how == 2 ? base64_decode(t, alph_of(a)) : dec_ptr(t, a, (int)how);
     return "[1," + js(d) + "]";
   } catch (const invalid_argument&) {
     return "[0,[]]";
@@ -72,7 +100,7 @@ int main(int argc, char** argv) {
     for (int a = 0; a < 2; a++) {
       Batch e("enc", a), ed("encdec", a);
       for (size_t i = chunk; i < min(inputs.size(), chunk + 1500); i++) {
-        string enc = base64_encode(inputs[i], alph_of(a));
+        string enc = i % 3 == 2 ? base64_encode(inputs[i], alph_of(a)) : enc_ptr(inputs[i], a, (int)(i % 3));
         e.add(js(inputs[i]), js(enc));
         ed.add(js(inputs[i]), dec_out(enc, a));
       }
